@@ -935,9 +935,6 @@ func (s *Session) ReadCheck(prop string) {
 		})
 		if r != "ok" {
 			kind := "ro-read-err"
-			if (s.FaultKind == "mmap" || s.FaultKind == "size") && strings.Contains(errText, "txfile/page-bytes") {
-				kind = "ro-read-unmapped-after-failed-remap"
-			}
 			s.fail(prop, kind, "reading live page %d failed: %s (%s)", id, r, strings.ReplaceAll(errText, "\n", " | "))
 			fmt.Fprintf(&sb, " %d=%s", id, r)
 			continue
